@@ -163,15 +163,20 @@ def main(tier: str) -> int:
         json.dump(cases, fh)
     ambients = {kind: prepare_ambient(kind, cases, os.path.join(run.scratch(), 'ambient'))
                 for kind in AMBIENTS}
-    jobs, kind_of = [], {}
+    jobs, kind_of, shared_builder_jobs = [], {}, []
     for hs in seeds:
         for k in range(2):
             kind = AMBIENTS[len(jobs) % len(AMBIENTS)]
-            jobs.append((path, hs, (hs * 7 + k) if k else 'none') + ambients[kind])
+            cwd, env_extra = ambients[kind]
+            if (len(jobs) // len(AMBIENTS)) % 2:
+                env_extra = dict(env_extra, VERIF_SHARED_BUILDER='1')
+                shared_builder_jobs.append((hs, (hs * 7 + k) if k else 'none'))
+            jobs.append((path, hs, (hs * 7 + k) if k else 'none', cwd, env_extra))
             kind_of[(hs, jobs[-1][2])] = kind
     reference = {}
     run.require('executions_compared', 'md5_recomputed', 'cases_with_non_ascii_contents',
                 'cases_with_relative_model_filename', 'cases_with_mixed_requires_semantics',
+                'children_with_one_builder_for_all_cases',
                 *[f'child_in_ambient_{kind}' for kind in AMBIENTS])
     for (_p, hashseed, order_seed, _cwd, _env), res in run.pmap(_worker, jobs):
         if 'error' in res:
@@ -179,6 +184,8 @@ def main(tier: str) -> int:
             continue
         run.count('child_interpreters')
         run.count(f'child_in_ambient_{kind_of[(hashseed, order_seed)]}')
+        if (hashseed, order_seed) in shared_builder_jobs:
+            run.count('children_with_one_builder_for_all_cases')
         for pas, idx, out in res['results']:
             case = cases[idx]
             ident = {'hashseed': hashseed, 'order_seed': order_seed, 'pass': pas,
@@ -223,7 +230,8 @@ def main(tier: str) -> int:
              'per process, the processes cycling through four surroundings (plain; working '
              'directory in which the configured model file name exists as a regular file; as a '
              'symbolic link to a differently named file; other HOME/USER/TZ/locale and a clock '
-             '400 days ahead); all executions of a case must agree on file names, sha256(contents) '
+             '400 days ahead), every other group of processes serving all its cases from one '
+             'Builder object; all executions of a case must agree on file names, sha256(contents) '
              'and hash; evaluations = cases; non-trivial = a selection naming >=2 ports',
         assumptions=['equal inputs = same JSON document and same configuration encoding'])
 
